@@ -429,8 +429,16 @@ func runHistory(w *world, hno int, h []step, rnd *rand.Rand) {
 			method, target, ctype, body, _ := w.request(op, rnd, at)
 			before := w.state()
 			at.c.Secure(sh)
-			at.c.Timeout = 400 * time.Millisecond
-			m, err := at.c.Do(method, target, ctype, body)
+			at.c.Timeout = 2 * time.Second
+			// the sealed request is followed by plaintext line ends: a connection that is (correctly) still in
+			// plaintext then sees a terminated garbage request line and answers 400 at once instead of waiting for
+			// more bytes; a connection that (wrongly) decrypts has answered the request before it reaches them
+			var m *refctl.Message
+			err := at.c.SendMany(refctl.BuildRequest(method, target, ctype, body))
+			if err == nil {
+				at.c.WriteRaw([]byte("\r\n\r\n"))
+				m, err = at.c.ReadResponse()
+			}
 			if !check(at, step{Op: op}, before, m, err, true, true) {
 				return
 			}
